@@ -27,6 +27,29 @@ OUT = os.path.join(HERE, '..', 'lean', 'Pymeeus', 'Gen', 'MoonData.lean')
 SRC = os.path.join(REPO, 'pymeeus', 'Moon.py')
 
 
+_SEG_CACHE = {}
+
+
+def _fast_segment(source, node):
+    """ast.get_source_segment without re-splitting the whole file on every call (that is quadratic)."""
+    key = id(source)
+    ent = _SEG_CACHE.get(key)
+    if ent is None or ent[0] is not source:
+        ent = (source, ast._splitlines_no_ff(source))
+        _SEG_CACHE[key] = ent
+    lines = ent[1]
+    try:
+        l0, l1, c0, c1 = node.lineno - 1, node.end_lineno - 1, node.col_offset, node.end_col_offset
+    except AttributeError:
+        return None
+    if l0 == l1:
+        return lines[l0].encode()[c0:c1].decode()
+    first = lines[l0].encode()[c0:].decode()
+    last = lines[l1].encode()[:c1].decode()
+    return ''.join([first] + lines[l0 + 1:l1] + [last])
+
+
+
 class Reject(Exception):
     pass
 
@@ -66,7 +89,7 @@ class Src:
         self.tree = ast.parse(text)
 
     def seg(self, node):
-        s = ast.get_source_segment(self.text, node)
+        s = _fast_segment(self.text, node)
         if s is None:
             fail(node, 'no source segment')
         return s
